@@ -226,4 +226,4 @@ def gen_record_replay(rng):
     nw = len(workers)
     pre = [{'w': rng.randrange(nw), 'arg': rng.randint(5, 9)} for _ in range(rng.choice([0, 1, 1, 2]))]
     post = [{'w': rng.randrange(nw), 'arg': rng.randint(5, 9)} for _ in range(rng.choice([0, 1, 1, 2]))]
-    return {'kind': 'threads', 'model': False, 'workers': workers, 'pre': pre, 'post': post, 'rand': rng.randrange(10 ** 9)}
+    return {'kind': 'threads', 'workers': workers, 'pre': pre, 'post': post, 'rand': rng.randrange(10 ** 9)}
